@@ -10,6 +10,7 @@ import (
 	"fmt"
 	"io"
 	"net/http"
+	"net/http/httptest"
 	"os"
 	"path/filepath"
 	"strings"
@@ -22,6 +23,7 @@ import (
 	"github.com/aws/aws-sdk-go-v2/service/s3"
 	"github.com/tailscale/setec/db"
 	"github.com/tailscale/setec/server"
+	"tailscale.com/client/tailscale/apitype"
 
 	"verif/hx"
 	"verif/report"
@@ -293,6 +295,7 @@ func TestCheck(t *testing.T) {
 	rep := env.New("C17")
 	defer rep.Guard(env)
 	rep.Assumptions = []string{
+		"section task-started-by-server-New is free-running: real time, a loopback HTTP endpoint as S3, AWS settings from environment variables; its only time bound (90 s for an upload that takes milliseconds) is reached only when no upload comes at all",
 		"S3 is an in-memory round tripper behind a genuine *s3.Client (SDK retries switched off so that the harness owns all timing); the loop runs through the verif hook with an injected client",
 		"virtual time advances only when every thread is blocked; a task that never blocks is reported as a busy loop when it passes 400 scheduling points without the clock advancing",
 		"'uploads happen only when the database has been written since the last successful upload' is judged leniently: a write since the last successful upload *began* justifies the next upload",
@@ -332,7 +335,88 @@ func TestCheck(t *testing.T) {
 		}
 		return "backup/" + sc + ": " + first
 	})
+	if env.Shard == 0 {
+		startedByNew(t, rep)
+	}
 	if err := rep.Write(env); err != nil {
 		t.Fatal(err)
 	}
+}
+
+// startedByNew: the task as a server gets it - started by server.New when a bucket is configured, with
+// the context New was given - and not through the verif hook. Free-running (real time, a loopback S3
+// endpoint reached through the SDK's ambient configuration): the start-up upload must arrive and be a
+// byte-exact copy of the database file while New's context is live. The bound is a generous real-time
+// limit for a step that takes milliseconds; it is only reached when the upload never comes.
+func startedByNew(t *testing.T, rep *report.Report) {
+	sec := rep.Add(&report.Section{Name: "task-started-by-server-New", Engine: "enum", Exhaustive: true, Extra: map[string]int64{},
+		Rule: "server.New with BackupBucket set (AWS endpoint, region and static credentials from the environment, pointing at a loopback S3) for databases {fresh, with two secrets}: the start-up upload must arrive while the context New was given is live and equal the database file byte for byte; non-trivial = all"})
+	var mu sync.Mutex
+	var bodies [][]byte
+	got := make(chan struct{}, 16)
+	ts := httptest.NewServer(http.HandlerFunc(func(w http.ResponseWriter, r *http.Request) {
+		b, _ := io.ReadAll(r.Body)
+		if r.Method == "PUT" {
+			mu.Lock()
+			bodies = append(bodies, b)
+			mu.Unlock()
+			w.Header().Set("Etag", `"abc"`)
+			w.WriteHeader(200)
+			got <- struct{}{}
+			return
+		}
+		w.WriteHeader(200)
+	}))
+	defer ts.Close()
+	for k, v := range map[string]string{"AWS_ENDPOINT_URL": ts.URL, "AWS_ACCESS_KEY_ID": "AKIDEXAMPLE", "AWS_SECRET_ACCESS_KEY": "secret", "AWS_REGION": "us-east-1", "AWS_EC2_METADATA_DISABLED": "true", "AWS_CONFIG_FILE": "/nonexistent", "AWS_SHARED_CREDENTIALS_FILE": "/nonexistent", "AWS_S3_USE_PATH_STYLE": "true"} {
+		t.Setenv(k, v)
+	}
+	for _, withSecrets := range []bool{false, true} {
+		sec.Evaluations++
+		sec.Nontrivial++
+		desc := fmt.Sprintf("database with secrets=%v", withSecrets)
+		dir := hx.Scratch("c17new-")
+		path := filepath.Join(dir, "db")
+		d, err := db.Open(path, kek, hx.Discard())
+		if err != nil {
+			panic(err)
+		}
+		if withSecrets {
+			d.Put(hx.Super(), "a", []byte("one"))
+			d.Put(hx.Super(), "b", []byte("two"))
+		}
+		want, _ := os.ReadFile(path)
+		mu.Lock()
+		bodies = nil
+		mu.Unlock()
+		ctx, cancel := context.WithCancel(context.Background())
+		_, err = server.New(ctx, server.Config{DB: d, WhoIs: func(context.Context, string) (*apitype.WhoIsResponse, error) { return nil, fmt.Errorf("unused") }, Mux: http.NewServeMux(), BackupBucket: "bucket", BackupBucketRegion: "us-east-1"})
+		if err != nil {
+			rep.Violate(sec.Name, "backup/new-fails: "+desc, desc+": server.New with a backup bucket failed: "+err.Error(), nil)
+			cancel()
+			os.RemoveAll(dir)
+			continue
+		}
+		select {
+		case <-got:
+			mu.Lock()
+			b := bodies[0]
+			mu.Unlock()
+			if !bytes.Equal(b, want) {
+				rep.Violate(sec.Name, "backup/start-up-upload-differs: "+desc, fmt.Sprintf("%s: the start-up upload (%d bytes) is not the database file (%d bytes)", desc, len(b), len(want)), nil)
+			}
+		case <-time.After(90 * time.Second):
+			rep.Violate(sec.Name, "backup/no-start-up-upload-from-New: "+desc, desc+": server.New returned, its context is live, and no upload reached the bucket within 90 s (real time): the task New starts is not backing up", nil)
+			cancel()
+			os.RemoveAll(dir)
+			sec.Exhaustive = false
+			sec.States, sec.Transitions = sec.Evaluations, sec.Evaluations
+			return
+		}
+		cancel()
+		time.Sleep(50 * time.Millisecond)
+		os.RemoveAll(dir)
+	}
+	sec.States, sec.Transitions = sec.Evaluations, sec.Evaluations
+	sec.Samples = append(sec.Samples, "fresh database: PUT /bucket/<date>/db-<time>.json with the database file as body")
 }
